@@ -229,13 +229,27 @@ def _initial_acked(repo):
     return None
 
 
+def _initial_listener_state(repo):
+    """The listener's own bookkeeping as `Listener.__init__` leaves it: every `self.*` entry holding a concrete container or a repository
+    object (whatever it is called and however many there are) — the duplicate detection is observed through deliveries, not through it."""
+    init = repo.func(f"{CM}.Listener.__init__")
+    for p in Interp(repo).explore(init):
+        if p.exit[0] != "return":
+            continue
+        st0 = {k: v for k, v in p.heap.items() if k.startswith("self.") and
+               (isinstance(v, (set, dict, list)) or (isinstance(v, Obj) and v.cls in repo.classes))}
+        if st0:
+            return st0
+    return None
+
+
 def r4_r5_listener(ctx):
     repo = ctx.repo
     fi = repo.func(f"{CM}.Listener._recv_one")
     ctx.analysed(fi.qual)
-    acked0 = _initial_acked(repo)
-    if acked0 is None:
-        ctx.undecided("C06.R4", loc(fi), "cannot evaluate the initial value of Listener.acked")
+    state0 = _initial_listener_state(repo)
+    if state0 is None:
+        ctx.undecided("C06.R4", loc(fi), "cannot evaluate the bookkeeping Listener.__init__ sets up")
         return
     A, B = "addrA", "addrB"
     hdr = Obj(MSG + "DatasetTransmitPayloadHeader", {"confirm_address": "c", "confirm_idx": 1, "ds": Atom("D"), "deser_fun": "f"}, frozen=True)
@@ -249,7 +263,7 @@ def r4_r5_listener(ctx):
     table = []
     for frames, want in grammar:
         ip = Interp(repo, call_models=_listener_models(frames, msgs))
-        paths = ip.explore(fi, env={"self.acked": acked0}, args={"timeout_ms": 10})
+        paths = ip.explore(fi, env=dict(state0), args={"timeout_ms": 10})
         ctx.evals(len(paths))
         if len(paths) != 1:
             ctx.undecided("C06.R5", loc(fi), f"frame sequence {frames}: {len(paths)} paths ({paths[0].cond_text()[:120]})")
@@ -280,7 +294,7 @@ def r4_r5_listener(ctx):
     ctx.table("C06.R5", table)
     # duplicate detection over a history (representation independent): 5/A, then the late 4/A, then 5/A again, then 5/B
     history = [((5, A), "deliver"), ((4, A), "deliver"), ((5, A), "drop"), ((5, B), "deliver"), ((4, A), "drop")]
-    heap = {"self.acked": acked0}
+    heap = dict(state0)
     for step, ((idx, addr), want) in enumerate(history):
         s = _syn(idx, addr)
         # messages arrive 20 s apart: a retry is a retry however late it comes (the sender retries for >= 16 s)
@@ -304,7 +318,7 @@ def r4_r5_listener(ctx):
             ctx.violation("C06.R4", fi.qual, loc(fi), "ack for retries too", f"{hist}: {len(acks)} Acks sent (every Syn, also a repeated one, must be acknowledged exactly once)")
             return
         ctx.ok("C06.R4", loc(fi), f"Syn(idx={idx}, sender={addr}) -> {want}, acknowledged")
-        heap = {"self.acked": p.heap["self.acked"]}
+        heap = {k: p.heap[k] for k in state0 if k in p.heap}
 
 
 def r6_frames(ctx):
